@@ -1250,6 +1250,22 @@ class CodeGenerator(NodeVisitor):
             iteration_indicator = self.temporary_identifier()
             self.writeline(f"{iteration_indicator} = 1")
 
+        # In async mode the loop filter is an async generator of its own.
+        # It must be closed when the loop is left early (an exception, a
+        # cancellation, the consumer closing the render), otherwise it
+        # stays suspended until the garbage collector finalizes it.
+        loop_filter_gen = None
+        if node.test and self.environment.is_async:
+            loop_filter_gen = self.temporary_identifier()
+            self.writeline(f"{loop_filter_gen} = {loop_filter_func}(", node)
+            if node.recursive:
+                self.write("reciter")
+            else:
+                self.visit(node.iter, frame)
+            self.write(")")
+            self.writeline("try:")
+            self.indent()
+
         self.writeline(self.choose_async("async for ", "for "), node)
         self.visit(node.target, loop_frame)
         if extended_loop:
@@ -1257,18 +1273,21 @@ class CodeGenerator(NodeVisitor):
         else:
             self.write(" in ")
 
-        if node.test:
-            self.write(f"{loop_filter_func}(")
-        if node.recursive:
-            self.write("reciter")
+        if loop_filter_gen is not None:
+            self.write(loop_filter_gen)
         else:
-            if self.environment.is_async and not extended_loop:
-                self.write("auto_aiter(")
-            self.visit(node.iter, frame)
-            if self.environment.is_async and not extended_loop:
+            if node.test:
+                self.write(f"{loop_filter_func}(")
+            if node.recursive:
+                self.write("reciter")
+            else:
+                if self.environment.is_async and not extended_loop:
+                    self.write("auto_aiter(")
+                self.visit(node.iter, frame)
+                if self.environment.is_async and not extended_loop:
+                    self.write(")")
+            if node.test:
                 self.write(")")
-        if node.test:
-            self.write(")")
 
         if node.recursive:
             self.write(", undefined, loop_render_func, depth):")
@@ -1283,6 +1302,9 @@ class CodeGenerator(NodeVisitor):
         if node.else_:
             self.writeline(f"{iteration_indicator} = 0")
         self.outdent()
+        if loop_filter_gen is not None:
+            self.outdent()
+            self.writeline(f"finally: await {loop_filter_gen}.aclose()")
         self.leave_frame(
             loop_frame, with_python_scope=node.recursive and not node.else_
         )
